@@ -124,6 +124,38 @@ def forced_support_quirks(m, meta):
                         if cls is ITerm2Image and term[0] == "wezterm" and "\x1b[%dX" % W not in out and len(problems) == n0:
                             problems.append({"render": (cls.__name__, term[0], "forced_support=%s" % forced, "+" + meth),
                                              "failed": "the cells are not erased before the image (WezTerm keeps the text under it)"})
+        # a subclass is the first iterm2-style class whose support is determined; then the base class and a sibling are used
+        for term in (("wezterm", "20230712"), ("konsole", "22.12.3"), ("iterm2", "3.5.0")):
+            tests.set_terminal_name_version(*term)
+            ITerm2Image.forced_support = False
+            ITerm2Image._supported = None
+            ITerm2Image._TERM = ""
+            ITerm2Image._TERM_VERSION = ""
+
+            class Thumb(ITerm2Image):
+                pass
+
+            class Other(ITerm2Image):
+                pass
+            im = Image.new("RGB", (30, 20), (10, 200, 30))
+            try:
+                Thumb(im, width=6, height=3)
+                for cls in (ITerm2Image, Other):
+                    image = cls(im, width=6, height=3)
+                    W, H = image.rendered_size
+                    for meth in ("L", "W"):
+                        out = format(image, "1.1+" + meth)
+                        n0 = len(problems)
+                        _check((cls.__name__, term[0], "used after a subclass determined the support status", "+" + meth), out, W, H, rng, problems)
+                        if term[0] == "wezterm" and "\x1b[%dX" % W not in out and len(problems) == n0:
+                            problems.append({"render": (cls.__name__, term[0], "after a subclass determined the support status", "+" + meth),
+                                             "failed": "the cells are not erased before the image (WezTerm keeps the text under it)"})
+                        if term[0] == "konsole" and "doNotMoveCursor=1" not in out and len(problems) == n0:
+                            problems.append({"render": (cls.__name__, term[0], "after a subclass determined the support status", "+" + meth),
+                                             "failed": "rendered in non-Konsole mode on Konsole (no doNotMoveCursor=1: the cursor ends elsewhere)"})
+            except Exception as e:  # noqa: BLE001
+                if type(e).__name__ != "StyleError":
+                    problems.append({"terminal": term[0], "subclass first": f"{type(e).__name__}: {e}"})
     finally:
         for c, (sup, term, ver, forced) in saved.items():
             c.forced_support = forced
